@@ -38,6 +38,34 @@ Theorem C19_cycle_reported_flat : forall fs entry fuel f,
   reachable fs entry f -> path_plus fs f f -> exists e tr, run fs entry fuel = Err e tr.
 Proof. exact cycle_reported_flat_lemma. Qed.
 
+(* ... and it is the circular-dependency error (or the entry's symbol conflict, raised before the
+   cyclic import is reached) when nothing else is wrong with the tree: every import of a reachable
+   file resolves and selects pub symbols only (clean; clean_b is a decidable sufficient check) *)
+Theorem C19_cycle_circular : forall fs entry fuel f,
+  keys_ok fs = true -> clean fs entry -> (fuel >= fuel_bound fs)%nat ->
+  reachable fs entry f -> path_plus fs f f ->
+  exists tr, run fs entry fuel = Err ECircular tr \/ run fs entry fuel = Err ESymbolConflict tr.
+Proof. exact cycle_circular_lemma. Qed.
+
+Theorem C19_clean_decidable : forall fs entry, clean_b fs = true -> clean fs entry.
+Proof. exact clean_b_sound. Qed.
+
+(* names: for every top level that ran, the compile-time name sets (module qualifiers, bare
+   globals) are exactly its own definitions plus what its imports grant -- pub names only, under
+   the spelling of the import form.  Entry file: granted_bare (all selected symbols).  Non-entry
+   modules: granted_bare_nested (first selected symbol only, KF-C19-6), which coincides with
+   granted_bare when each `needs .. from ..` selects one symbol (C19_nested_grants_single). *)
+Theorem C19_visibility_compile_time : forall fs entry fuel evs me,
+  keys_ok fs = true -> run fs entry fuel = Ok evs -> find_file fs entry = Some me ->
+  exists evs0 ev, evs = evs0 ++ [ev] /\ ev_file ev = entry /\ ev_key ev = [] /\
+    (forall e, In e evs0 -> ev_ok_mod fs e) /\
+    (no_std_imports me -> nonempty_symbols me -> entry_names_ok fs entry me ev).
+Proof. exact visibility_lemma. Qed.
+
+Theorem C19_nested_grants_single : forall fs f m j, single_symbols m -> In j (m_imports m) ->
+  granted_bare_nested fs f j = granted_bare fs f j.
+Proof. exact nested_eq_single. Qed.
+
 (* ---- the full statements are false of the loader; concrete witnesses (all replayed against the
         real loader from corpus/C19/) *)
 
@@ -103,13 +131,13 @@ Theorem C19_shared_qualifier_refuted : exists fs E evs ev,
   probe ev (SQual 70 44) = Some ([11], 44).
 Proof. exact shared_qualifier_refuted_lemma. Qed.
 
-(* the guards are satisfiable by non-trivial trees: a diamond with every import form runs in
-   post-order; a cycle of length 6 behind a tail is CircularDependency *)
+(* the guards (flat, keys_ok, clean_b) are satisfiable by non-trivial trees: a diamond with every
+   import form runs in post-order; a cycle of length 6 behind a tail is CircularDependency *)
 Example C19_nonvacuous :
   flat w_diamond = true /\ keys_ok w_diamond = true /\
   (exists evs, run w_diamond E9 (fuel_bound w_diamond) = Ok evs /\
                map ev_file evs = [[19]; [10]; [11]; [12]; [9]]) /\
-  flat w_cycle6 = true /\ keys_ok w_cycle6 = true /\
+  flat w_cycle6 = true /\ keys_ok w_cycle6 = true /\ clean_b w_cycle6 = true /\
   reachable w_cycle6 E9 [11] /\ path_plus w_cycle6 [11] [11] /\
   (exists tr, run w_cycle6 E9 (fuel_bound w_cycle6) = Err ECircular tr /\ map ev_file tr = [[19]]).
 Proof. exact nonvacuous_lemma. Qed.
